@@ -65,6 +65,16 @@ func (e *Exec) stepInsert(op *Op, mc *model.Coll) {
 	for i, d := range docs {
 		cdocs[i] = DocToClover(d)
 	}
+	sameA, sameB := -1, -1
+	if strings.HasPrefix(op.Note, "sameobj:") {
+		fmt.Sscanf(op.Note, "sameobj:%d:%d", &sameA, &sameB)
+		if sameA >= 0 && sameB > sameA && sameB < len(cdocs) && !hasGivenID(docs[sameA]) {
+			cdocs[sameB] = cdocs[sameA] // the very same object twice in the batch
+			e.probe("same-document-object-twice-in-batch")
+		} else {
+			sameA, sameB = -1, -1
+		}
+	}
 	what := op.Brief()
 
 	// prediction
@@ -110,6 +120,9 @@ func (e *Exec) stepInsert(op *Op, mc *model.Coll) {
 				}
 			}
 			seen[id] = true
+		}
+		if sameB >= 0 {
+			dup = true // the second occurrence carries the _id assigned to the first
 		}
 		switch {
 		case dup && bad:
@@ -898,21 +911,9 @@ func (e *Exec) stepDerived(op *Op, mc *model.Coll) {
 			e.fail([]string{"C09"}, "C09/findfirst", fmt.Sprintf("FindFirst(%s) = nil but FindAll returns %d documents", what, len(base)), feats)
 			return
 		case len(base) > 0 && first.ObjectId() != baseIDs[0]:
-			// the same plan on the same state yields the same sequence; with
-			// tied sort keys the first of a sorted prefix may legitimately be any
-			// member of the first tie class
-			ok := false
-			if so := q.EffSort(); len(so) > 0 {
-				a := model.TupleOf(mc.Docs[baseIDs[0]], so)
-				if md, live := mc.Docs[first.ObjectId()]; live {
-					b := model.TupleOf(md, so)
-					ok = !model.DefinitelyAfter(b, a, so) && !model.DefinitelyAfter(a, b, so)
-				}
-			}
-			if !ok {
-				e.fail([]string{"C09"}, "C09/findfirst", fmt.Sprintf("FindFirst(%s) returned %s but FindAll's first element is %s", what, first.ObjectId(), baseIDs[0]), feats)
-				return
-			}
+			// the statement is literal: FindFirst(q) is the first element of FindAll(q), on the same state
+			e.fail([]string{"C09"}, "C09/findfirst", fmt.Sprintf("FindFirst(%s) returned %s but FindAll's first element is %s", what, first.ObjectId(), baseIDs[0]), feats)
+			return
 		}
 		if !readOnly("FindFirst") || !checkUnchanged("FindFirst") {
 			return
